@@ -251,7 +251,7 @@ class Closure:
     def __call__(self, *args, **kw):
         """called back from an analyser-side model (e.g. a stub integrator applying the rate function it was handed)"""
         a2 = ([self.selfobj] if self.selfobj is not None else []) + list(args)
-        return self.ev.call_fn(self.fn, a2, kw, Path({}), outer_env=self.env if self.outer is not None else None)
+        return self.ev.call_fn(self.fn, a2, kw, Path({}), outer_env=self.env)
 
 
 _SCALAR_OPAQUE = set()      # numpy functions that may stay uninterpreted scalar atoms (none needed so far)
@@ -539,6 +539,17 @@ class ToleranceLog:
         return out
 
 
+def _take(a, indices, axis, k):
+    """np.take: along an axis, or from the flattened array when no axis is given"""
+    if k:
+        raise Opaque('np.take keyword(s) %s' % sorted(k))
+    A = np.asarray(a, dtype=object)
+    idx = np.asarray(_intidx(np.asarray(indices, dtype=object)) if not isinstance(indices, (int, np.integer, sp.Integer)) else int(indices))
+    if idx.dtype == object:
+        raise Opaque('np.take with symbolic indices')
+    return np.take(A, idx.astype(int), axis=None if axis is None else int(axis))
+
+
 def _trunc(e):
     """rounding toward zero"""
     e = sp.sympify(e)
@@ -621,6 +632,7 @@ NP_FUNCS = {
     'numpy.sqrt': lambda x, out=None, **k: _ufunc_out(vmap(sp.sqrt, x), out) if out is not None else vmap(sp.sqrt, x),
     'numpy.diagonal': lambda a, offset=0, axis1=0, axis2=1: np.diagonal(np.asarray(a, dtype=object), int(offset), int(axis1), int(axis2)).copy(), 'numpy.abs': lambda x: vmap(sp.Abs, x), 'numpy.absolute': lambda x: vmap(sp.Abs, x),
     'numpy.sign': lambda x: vmap(sp.sign, x), 'numpy.floor': lambda x: vmap(sp.floor, x), 'numpy.ceil': lambda x: vmap(sp.ceiling, x),
+    'numpy.take': lambda a, indices, axis=None, **k: _take(a, indices, axis, k),
     'numpy.trunc': lambda x: vmap(_trunc, x), 'numpy.fix': lambda x: vmap(_trunc, x),
     'numpy.mod': lambda a, b: _elementwise2(lambda p, q: p - q * sp.floor(p / q), a, b), 'numpy.remainder': lambda a, b: _elementwise2(lambda p, q: p - q * sp.floor(p / q), a, b),
     'numpy.fmod': lambda a, b: _elementwise2(lambda p, q: p - q * _trunc(p / q), a, b), 'numpy.floor_divide': lambda a, b: _elementwise2(lambda p, q: sp.floor(p / q), a, b),
@@ -1787,6 +1799,9 @@ class SymEval:
             outer_env = None
             if f.outer is not None:
                 outer_env = p.env if (self.fn_stack and self.fn_stack[-1] is f.outer) else f.env
+            elif f.env is not None:
+                # a nested function defined in a block that is being evaluated on its own (no enclosing call on the stack): its free variables are those of the block
+                outer_env = p.env if f.env is p.env else f.env
             return self.call_fn(f.fn, a2, kw, p, outer_env=outer_env)
         if isinstance(f, OpaqueFn):
             if not self.opaque_calls:
